@@ -8,7 +8,9 @@ import (
 	"encoding/json"
 	"fmt"
 	"math/rand"
+	"net"
 	"strconv"
+	"strings"
 	"sync"
 	"sync/atomic"
 	"time"
@@ -57,7 +59,16 @@ func headerProbe(msg *service.Message, key string, err error) {
 
 func scenServer() *Srv {
 	scenOnce.Do(func() {
-		scenSrv = StartSrv(nil)
+		// a custom KeyFunc as C11's scenarios use it: an invalid key (phones 99...), the empty key (phone 88)
+		scenSrv = StartSrv(func(phone string) (string, bool) {
+			if strings.HasPrefix(phone, "99") {
+				return "", false
+			}
+			if phone == "88" {
+				return "", true
+			}
+			return phone, true
+		})
 		scenSrv.Rec.OnJoin = headerProbe
 	})
 	return scenSrv
@@ -173,6 +184,9 @@ func runScen(seed int64, nconn, ncallers, ms int) (st scenStats) {
 		if i > 0 && rng.Intn(5) == 0 {
 			phones[i] = phones[rng.Intn(i)] // duplicate key: refused while the first is online
 		}
+		if rng.Intn(9) == 0 {
+			phones[i] = "88" // the empty key (several such terminals: duplicates of it are refused as well)
+		}
 	}
 	ev0 := s.Rec.NConns()
 	var mu sync.Mutex
@@ -225,6 +239,16 @@ func runScen(seed int64, nconn, ncallers, ms int) (st scenStats) {
 			}()
 			n := 1 + r.Intn(8)
 			frames := 0
+			if r.Intn(8) == 0 { // a first message whose key is invalid: OnJoinEvent(err), no session, the next message tries again
+				t.SendRaw(TFrame(0x0002, "99"+strconv.Itoa(i), t.NextSerial(), nil))
+			}
+			if r.Intn(5) == 0 { // the first handled message is a sub-package fragment (C11's ff): joins on it
+				ser := t.NextSerial()
+				t.NextSerial()
+				for _, fr := range ConcFragFrames(0x0200, phones[i], ser, append(locationBody(r), locationBody(r)...), 2) {
+					t.SendRaw(fr)
+				}
+			}
 			for k := 0; k < n && time.Now().Before(deadline); k++ {
 				switch r.Intn(15) {
 				case 10: // registration (2013 layout): province, city, manufacturer, model, terminal id, colour, plate
@@ -310,6 +334,19 @@ func runScen(seed int64, nconn, ncallers, ms int) (st scenStats) {
 			case <-done:
 			case <-time.After(3 * time.Second):
 			}
+			if r.Intn(4) == 0 && time.Now().Before(deadline) { // reconnect: a new connection asks for the same key at once
+				if t2, err := DialTerm(s.Addr, phones[i]); err == nil {
+					go func() {
+						for range t2.Frames {
+						}
+					}()
+					for k := 0; k < 1+r.Intn(3); k++ {
+						t2.Send(0x0002, nil)
+						time.Sleep(time.Duration(r.Intn(800)) * time.Microsecond)
+					}
+					t2.Close()
+				}
+			}
 			mu.Lock()
 			st.Conns++
 			st.Frames += frames
@@ -330,6 +367,9 @@ func runScen(seed int64, nconn, ncallers, ms int) (st scenStats) {
 				mu.Unlock()
 				cmd := cmdIDs[r.Intn(len(cmdIDs))]
 				to := timeouts[r.Intn(len(timeouts))]
+				if key == "88" {
+					key = "" // the key, not the phone
+				}
 				res := Await(s.Call(key, cmd, []byte{byte(r.Intn(256)), 0, 0, 0}, to), 5*time.Second)
 				mu.Lock()
 				st.Cmds++
@@ -433,4 +473,135 @@ func runWKinds(seed int64, slow bool) string {
 	}
 	wg.Wait()
 	return "{\"WKinds\":" + strconv.Itoa(n) + ",\"WViol\":" + strconv.Itoa(viol) + ",\"Durs\":\"" + durs + "\"}"
+}
+
+// ---------------------------------------------------------------- the sub-package filter switched off
+// WithHasSubcontract(false): every sub-packet is handed to the handlers and answered by the writer, and so is the
+// merged message.  The eventer does what a user's OnReadExecutionEvent may do: look at the message's header.
+type nfEventer struct{}
+
+func (nfEventer) OnJoinEvent(msg *service.Message, key string, err error) {}
+func (nfEventer) OnLeaveEvent(key string)                                {}
+func (nfEventer) OnNotSupportedEvent(msg *service.Message)               {}
+func (nfEventer) OnWriteExecutionEvent(msg service.Message)              {}
+func (nfEventer) OnReadExecutionEvent(msg *service.Message) {
+	if msg == nil || msg.JTMessage == nil || msg.JTMessage.Header == nil {
+		return
+	}
+	end := time.Now().Add(60 * time.Microsecond)
+	acc := 0
+	for {
+		h := *msg.JTMessage.Header
+		acc += int(h.ReplyID) + int(h.PlatformSerialNumber) + int(h.SubPackageSum) + len(msg.JTMessage.Body)
+		if h.Property != nil {
+			p := *h.Property
+			acc += int(p.BodyDayaLen) + int(p.PacketFragmented)
+		}
+		if time.Now().After(end) {
+			break
+		}
+	}
+	if acc == -1 {
+		panic("unreachable")
+	}
+}
+
+var (
+	nfOnce sync.Once
+	nfAddr string
+)
+
+func nfServer() string {
+	nfOnce.Do(func() {
+		for attempt := 0; attempt < 20 && nfAddr == ""; attempt++ {
+			l, err := net.Listen("tcp", "127.0.0.1:0")
+			if err != nil {
+				continue
+			}
+			addr := l.Addr().String()
+			l.Close()
+			g := service.New(service.WithHostPorts(addr), service.WithHasSubcontract(false),
+				service.WithCustomTerminalEventer(func() service.TerminalEventer { return nfEventer{} }))
+			go g.Run()
+			for i := 0; i < 200; i++ {
+				c, err := net.DialTimeout("tcp", addr, 200*time.Millisecond)
+				if err == nil {
+					c.Close()
+					nfAddr = addr
+					break
+				}
+				time.Sleep(5 * time.Millisecond)
+			}
+		}
+	})
+	return nfAddr
+}
+
+// runNoFilter: nconn terminals, each sending sub-packaged transfers (0x0200 / 0x0801, 2..4 parts, the parts in
+// separate writes or in one) and plain messages for ms milliseconds.
+func runNoFilter(seed int64, nconn, ms int) string {
+	addr := nfServer()
+	if addr == "" {
+		return `{"NF":"no server"}`
+	}
+	rng := rand.New(rand.NewSource(seed))
+	deadline := time.Now().Add(time.Duration(ms) * time.Millisecond)
+	var wg sync.WaitGroup
+	var transfers int64
+	for i := 0; i < nconn; i++ {
+		wg.Add(1)
+		go func(i int, r *rand.Rand) {
+			defer wg.Done()
+			phone := strconv.Itoa(700000 + int(seed%100000)*10 + i)
+			t, err := DialTerm(addr, phone)
+			if err != nil {
+				return
+			}
+			go func() {
+				for range t.Frames {
+				}
+			}()
+			for time.Now().Before(deadline) {
+				switch r.Intn(4) {
+				case 0:
+					t.Send(0x0002, nil)
+				case 1:
+					t.Send(0x0200, locationBody(r))
+				default:
+					id := uint16(0x0200)
+					body := append(locationBody(r), locationBody(r)...)
+					if r.Intn(2) == 0 {
+						id = 0x0801
+						body = append([]byte{0, 0, 0, byte(1 + r.Intn(200)), 0, 0, 0, 1}, body...)
+					}
+					parts := 2 + r.Intn(3)
+					ser := t.NextSerial()
+					for j := 1; j < parts; j++ {
+						t.NextSerial()
+					}
+					frs := ConcFragFrames(id, phone, ser, body, parts)
+					if r.Intn(2) == 0 {
+						var all []byte
+						for _, fr := range frs {
+							all = append(all, fr...)
+						}
+						t.SendRaw(all)
+					} else {
+						for _, fr := range frs {
+							t.SendRaw(fr)
+							if r.Intn(2) == 0 {
+								time.Sleep(time.Duration(r.Intn(200)) * time.Microsecond)
+							}
+						}
+					}
+					atomic.AddInt64(&transfers, 1)
+				}
+				time.Sleep(time.Duration(r.Intn(800)) * time.Microsecond)
+			}
+			t.Close()
+		}(i, rand.New(rand.NewSource(rng.Int63())))
+	}
+	wg.Wait()
+	time.Sleep(20 * time.Millisecond)
+	return `{"NF":"ok","Transfers":` + strconv.FormatInt(transfers, 10) + `}`
 }
